@@ -466,14 +466,14 @@ def run(ctx):
                   for H in range(2, mx + 1) for W in range(2, mx + 1) for vr in range(H) for vc in range(W)]
     if not thorough:
         table_jobs += [{"kind": "tables", "H": 7, "W": 7, "vr": vr, "vc": vc} for vr in range(7) for vc in range(7)]
-    tree_jobs = perm_jobs(rng, 4) + perm_jobs(rng, 5, limit=ctx.pick(200, 5000))
+    tree_jobs = perm_jobs(rng, 4) + perm_jobs(rng, 5, limit=ctx.pick(150, 5000))
     if thorough:
         tree_jobs += perm_jobs(rng, 6, limit=1500)
-    tree_jobs += sim_jobs(ctx, rng, ctx.pick(80, 600), ctx.pick(40, 60), 12)
-    comp_jobs = los_jobs(rng, ctx.pick(10, 120), steps=False) + big_jobs(rng, ctx.pick(45, 500)) + \
+    tree_jobs += sim_jobs(ctx, rng, ctx.pick(60, 600), ctx.pick(40, 60), 12)
+    comp_jobs = los_jobs(rng, ctx.pick(9, 120), steps=False) + big_jobs(rng, ctx.pick(40, 500)) + \
         big_jobs(rng, ctx.pick(10, 100), sizes=[(17, 17), (21, 21)]) + \
         precision_jobs(rng, ctx.pick(16, 200), steps=False)
-    interp_jobs = los_jobs(rng, ctx.pick(40, 300), steps=True, every_observer=False) + \
+    interp_jobs = los_jobs(rng, ctx.pick(34, 300), steps=True, every_observer=False) + \
         los_jobs(rng, ctx.pick(4, 30), steps=True, every_observer=True, sizes=[(3, 3), (4, 5), (5, 5)]) + \
         precision_jobs(rng, ctx.pick(8, 100), steps=True, per=4)
     results, errors = {}, {}
